@@ -162,3 +162,76 @@ Proof.
   apply G. intros i j a b Hi. destruct i; discriminate.
 Qed.
 
+
+(* Min and Max of integers: the result is the least (greatest) non-null input, whatever the arrival order *)
+Definition ext_ok (want_lt : bool) (m x : Z) : Prop := if want_lt then (m <= x)%Z else (x <= m)%Z.
+
+Definition pick_step (want_lt : bool) (acc : res val) (x : val) : res val :=
+  bind acc (fun a =>
+    match val_ltb x a with
+    | Some lt => if Bool.eqb lt want_lt then (if val_eqb x a then Ok a else Ok x) else Ok a
+    | None => Fail E_TYPE
+    end).
+
+Lemma pick_fold_int want_lt : forall l acc, all_int l = true ->
+  exists m, fold_left (pick_step want_lt) l (Ok (VInt acc)) = Ok (VInt m) /\
+    (m = acc \/ In (VInt m) l) /\
+    (forall x, x = acc \/ In (VInt x) l -> ext_ok want_lt m x).
+Proof.
+  induction l as [|v l IH]; intros acc H.
+  - exists acc. split; [reflexivity|]. split; [left; reflexivity|].
+    intros x [E|[]]. subst. unfold ext_ok. destruct want_lt; lia.
+  - cbn [all_int] in H. destruct v as [|x| | |]; try discriminate.
+    cbn [fold_left]. unfold pick_step at 2. cbn [bind val_ltb val_eqb].
+    assert (Hn : exists acc', (if Bool.eqb (x <? acc)%Z want_lt then if (x =? acc)%Z then Ok (VInt acc) else Ok (VInt x) else Ok (VInt acc)) = Ok (VInt acc')
+               /\ (acc' = acc \/ acc' = x) /\ ext_ok want_lt acc' acc /\ ext_ok want_lt acc' x).
+    { unfold ext_ok. destruct (Z.ltb_spec x acc), (Z.eqb_spec x acc), want_lt; cbn [Bool.eqb];
+        try (exists acc; split; [reflexivity|]; split; [left; reflexivity|]; lia);
+        try (exists x; split; [reflexivity|]; split; [right; reflexivity|]; lia). }
+    destruct Hn as [acc' [E [Hor [Ha Hx]]]]. rewrite E.
+    destruct (IH acc' H) as [m [Hm [Hin Hall]]].
+    exists m. split; [exact Hm|]. split.
+    + destruct Hin as [->|Hin]; [|right; right; exact Hin].
+      destruct Hor as [->| ->]; [left; reflexivity | right; left; reflexivity].
+    + intros y Hy. pose proof (Hall acc' (or_introl eq_refl)) as Hacc'.
+      destruct Hy as [->|[Ey|Hy]].
+      * unfold ext_ok in *. destruct want_lt; lia.
+      * inversion Ey; subst y. unfold ext_ok in *. destruct want_lt; lia.
+      * apply Hall. right. exact Hy.
+Qed.
+
+Lemma pick_ext_int want_lt l : all_int l = true -> l <> [] ->
+  exists m, pick_ext want_lt l = Ok (VInt m) /\ In (VInt m) l /\ (forall x, In (VInt x) l -> ext_ok want_lt m x).
+Proof.
+  intros H Hne. destruct l as [|v l]; [contradiction|].
+  cbn [all_int] in H. destruct v as [|z| | |]; try discriminate.
+  destruct (pick_fold_int want_lt l z H) as [m [Hm [Hin Hall]]].
+  exists m. split; [exact Hm|]. split.
+  - destruct Hin as [->|Hin]; [left; reflexivity | right; exact Hin].
+  - intros x [E|Hx]; apply Hall; [left; inversion E; reflexivity | right; exact Hx].
+Qed.
+
+Theorem min_max_arrival_order op vals vals' : op = AMin \/ op = AMax ->
+  all_int (filter (fun v => negb (is_null v)) vals) = true -> Permutation vals vals' ->
+  aggregate op vals = aggregate op vals'.
+Proof.
+  intros Hop H P. pose proof (filter_perm (fun v => negb (is_null v)) _ _ P) as Pf.
+  set (w := match op with AMin => true | _ => false end).
+  assert (Ea : forall vs, aggregate op vs = pick_ext w (filter (fun v => negb (is_null v)) vs))
+    by (intros vs; destruct Hop as [-> | ->]; reflexivity).
+  rewrite !Ea.
+  set (a := filter (fun v => negb (is_null v)) vals) in *.
+  set (b := filter (fun v => negb (is_null v)) vals') in *.
+  assert (Hb : all_int b = true) by (rewrite <- (all_int_perm _ _ Pf); exact H).
+  destruct a as [|x a'] eqn:Eqa.
+  - apply Permutation_nil in Pf. rewrite Pf. reflexivity.
+  - assert (Hbn : b <> []) by (intros Eb; rewrite Eb in Pf; apply Permutation_sym, Permutation_nil in Pf; discriminate).
+    rewrite <- Eqa in *.
+    assert (Han : a <> []) by (rewrite Eqa; discriminate).
+    destruct (pick_ext_int w a H Han) as [m [Em [Im Am]]].
+    destruct (pick_ext_int w b Hb Hbn) as [m' [Em' [Im' Am']]].
+    rewrite Em, Em'. f_equal. f_equal.
+    assert (I1 : In (VInt m) b) by (eapply Permutation_in; eassumption).
+    assert (I2 : In (VInt m') a) by (eapply Permutation_in; [apply Permutation_sym|]; eassumption).
+    pose proof (Am m' I2) as A1. pose proof (Am' m I1) as A2. unfold ext_ok in *. destruct w; lia.
+Qed.
